@@ -58,7 +58,7 @@ func (s SuperSSTableReader) Scan() (SSTableIteratorI, error) {
 		iterators = append(iterators, NewMergeIteratorContext(i, scanner))
 	}
 
-	iterator, err := NewSSTableMerger(s.comp).MergeCompactIterator(iterators, ScanReduceLatestWins)
+	iterator, err := NewSSTableMerger(s.comp).MergeCompactIterator(iterators, scanReduceLatestWinsSkipNil)
 	if err != nil {
 		return nil, err
 	}
@@ -77,7 +77,7 @@ func (s SuperSSTableReader) ScanStartingAt(key []byte) (SSTableIteratorI, error)
 		iterators = append(iterators, NewMergeIteratorContext(i, scanner))
 	}
 
-	iterator, err := NewSSTableMerger(s.comp).MergeCompactIterator(iterators, ScanReduceLatestWins)
+	iterator, err := NewSSTableMerger(s.comp).MergeCompactIterator(iterators, scanReduceLatestWinsSkipNil)
 	if err != nil {
 		return nil, err
 	}
@@ -96,7 +96,7 @@ func (s SuperSSTableReader) ScanRange(keyLower []byte, keyHigher []byte) (SSTabl
 		iterators = append(iterators, NewMergeIteratorContext(i, scanner))
 	}
 
-	iterator, err := NewSSTableMerger(s.comp).MergeCompactIterator(iterators, ScanReduceLatestWins)
+	iterator, err := NewSSTableMerger(s.comp).MergeCompactIterator(iterators, scanReduceLatestWinsSkipNil)
 	if err != nil {
 		return nil, err
 	}
@@ -118,6 +118,15 @@ func ScanReduceLatestWins(key []byte, values [][]byte, context []int) ([]byte, [
 	}
 
 	return key, values[maxCtxIndex]
+}
+
+// scanReduceLatestWinsSkipNil is ScanReduceLatestWins for scans: a key whose latest value is nil (a tombstone) is skipped.
+func scanReduceLatestWinsSkipNil(key []byte, values [][]byte, context []int) ([]byte, []byte) {
+	key, val := ScanReduceLatestWins(key, values, context)
+	if val == nil {
+		return nil, nil
+	}
+	return key, val
 }
 
 // ScanReduceLatestWinsSkipTombstones is ScanReduceLatestWins but with additional checks on whether the value is tombstoned.
